@@ -123,7 +123,22 @@ def c13(cx):
              "pipelining, extended-protocol COPY, several rounds per connection.")
 
 
-PROPS = {"C13": c13, "C05": c05, "C06": c06, "C07": c07, "C08": c08, "C17": c17}
+def c01(cx):
+    return conn_family(
+        cx, "MC_C01", "C01", 1000, 20000,
+        consts_thorough={"MaxAfter": 3},
+        rule="TLC explores the clear-text authentication of the bounded model: every validator outcome (accept/reject/"
+             "fail), every message in place of the password (Query, Parse, Sync, Terminate, unknown, unterminated / "
+             "oversized / undersized password message, end of input), with and without a refused SSLRequest before, and "
+             "every continuation of up to MaxAfter messages pushed with or without waiting; it checks that the "
+             "authenticated phases and everything they emit are reachable only after an accepting validator call. The "
+             "transition cover runs on the real server (ClearTextPassword with a scripted validator); TLC validates reply "
+             "kinds, AuthenticationOk/ErrorResponse class 28, validator arguments, and that no middleware, parser or "
+             "statement callback ever follows a non-accepting exchange. Random driver: random user/database/password "
+             "strings, message kinds and pipelining.")
+
+
+PROPS = {"C01": c01, "C13": c13, "C05": c05, "C06": c06, "C07": c07, "C08": c08, "C17": c17}
 
 
 def replay(cx, path):
